@@ -123,10 +123,11 @@ S1 == <<Stream(Cpus_(App_(BaseMeta(101, 1001, 1, {"O"}), 1), <<<<0, 10>>, <<1, 1
             Ev("O", "OAs", <<1>>, 1040), O("OHe", 1050)>>)>>
 
 \* S2: two threads of one process, nOS-V tasks + a mark; only thread 1
-\* requires nosv and carries app_id / loom_cpus
+\* requires nosv and carries app_id / loom_cpus.  The second task type is
+\* not used by any task: losing it does not invalidate later events
 S2 == <<Stream(Marks_(Cpus_(App_(BaseMeta(101, 1001, 1, {"O", "V"}), 1), <<<<0, 10>>, <<1, 11>>>>),
                       <<[type |-> 2, stack |-> FALSE]>>),
-          <<Ex(0, 1000), Jv("V", "VYc", <<1, 5>>, 1010), Ev("V", "VTc", <<1, 1>>, 1020),
+          <<Ex(0, 1000), Jv("V", "VYc", <<1, 5>>, 1010), Jv("V", "VYc", <<2, 6>>, 1012), Ev("V", "VTc", <<1, 1>>, 1020),
             Ev("V", "VTx", <<1, 0>>, 1030), Ev("V", "VSh", <<>>, 1040), Ev("V", "VSf", <<>>, 1050),
             Ev("V", "VTe", <<1, 0>>, 1060), Ev("O", "OM=", <<5, 2>>, 1070), O("OHe", 1080)>>),
         Stream(BaseMeta(102, 1001, 1, {"O"}),
@@ -134,7 +135,7 @@ S2 == <<Stream(Marks_(Cpus_(App_(BaseMeta(101, 1001, 1, {"O", "V"}), 1), <<<<0, 
 
 \* S3: two processes, Nanos6: a jumbo event followed by normal events WITH
 \* payload (8 and 4 bytes); both streams require nanos6
-N6(clk0) == <<Jv("6", "6Yc", <<1, 5>>, clk0 + 10), Ev("6", "6Tc", <<1, 1>>, clk0 + 20),
+N6(clk0) == <<Jv("6", "6Yc", <<1, 5>>, clk0 + 10), Jv("6", "6Yc", <<2, 6>>, clk0 + 12), Ev("6", "6Tc", <<1, 1>>, clk0 + 20),
               Ev("6", "6Tx", <<1>>, clk0 + 30), Ev("6", "6Te", <<1>>, clk0 + 40), O("OHe", clk0 + 50)>>
 S3 == <<Stream(Cpus_(App_(BaseMeta(101, 1001, 1, {"O", "6"}), 1), <<<<0, 10>>, <<1, 11>>>>),
           <<Ex(0, 1000)>> \o N6(1000)),
@@ -300,6 +301,8 @@ JsonCases(s, k) == {Case(s, "json", k, how, 0, None) : how \in {"truncated", "ga
 TruncCases(s, k, st) == {Case(s, "trunc", k, c, 0, None) : c \in 0..(FileSize(st) - 1)}
 SwapCases(s, k, st) == {Case(s, "swap", k, x, 0, None) :
                           x \in {y \in 1..(Len(st.evs) - 1) : st.evs[y].clk # st.evs[y + 1].clk}}
+\* the clock of an event set just below the one of its predecessor
+ClockCases(s, k, st) == {Case(s, "clock", k, x, st.evs[x - 1].clk - 1, None) : x \in 2..Len(st.evs)}
 HdrCases(s, k, st) == UNION {{Case(s, "hdr", k, b, (st.hdr[b + 1] + 1) % 256, None),
                               Case(s, "hdr", k, b, (st.hdr[b + 1] + 128) % 256, None)} : b \in 0..7}
 
@@ -332,7 +335,7 @@ CasesOf(s) ==
    LET T == Seed(s) IN
    {Case(s, "none", 0, 0, 0, None)}
    \cup UNION {MetaCases(s, k, T[k].meta) \cup ReqCases(s, k, T[k].meta) \cup JsonCases(s, k)
-               \cup TruncCases(s, k, T[k]) \cup SwapCases(s, k, T[k]) \cup HdrCases(s, k, T[k])
+               \cup TruncCases(s, k, T[k]) \cup SwapCases(s, k, T[k]) \cup ClockCases(s, k, T[k]) \cup HdrCases(s, k, T[k])
                \cup McvCases(s, k, T[k]) \cup PayCases(s, k, T[k]) \cup NoJumboCases(s, k, T[k])
                : k \in 1..Len(T)}
 
@@ -343,6 +346,7 @@ Apply(T, c) ==
    CASE kind = "none" -> T
      [] kind = "trunc" -> [T EXCEPT ![k].cut = p]
      [] kind = "swap" -> [T EXCEPT ![k].evs = SwapAt(T[k].evs, p)]
+     [] kind = "clock" -> [T EXCEPT ![k].evs = [T[k].evs EXCEPT ![p] = [T[k].evs[p] EXCEPT !.clk = q]]]
      [] kind = "hdr" -> [T EXCEPT ![k].hdr = [T[k].hdr EXCEPT ![p + 1] = q]]
      [] kind = "json" -> [T EXCEPT ![k].json = p]
      [] kind = "meta" -> [T EXCEPT ![k].meta = IF q = "removed" THEN Without(T[k].meta, p) ELSE With(T[k].meta, p, v)]
@@ -401,7 +405,7 @@ Done == cRes # ""
 Kind == cCase[2]
 SeedsAreValid == (Done /\ Kind = "none") => cRes = "ok"
 TruncAlwaysRejected == (Done /\ Kind = "trunc") => cRes = "reject"
-SwapAlwaysRejected == (Done /\ Kind = "swap") => cRes = "reject"
+SwapAlwaysRejected == (Done /\ Kind \in {"swap", "clock"}) => cRes = "reject"
 HdrAlwaysRejected == (Done /\ Kind = "hdr") => cRes = "reject"
 JsonAlwaysRejected == (Done /\ Kind = "json") => cRes = "reject"
 MandatoryRejected ==
